@@ -383,9 +383,16 @@ def big_state(a, rows, seed):
     return State(tuple(a), getattr(a, "kw", {}))
 
 
-def run_sqlite(chk: Check, s1, s2, label="short-history"):
+def run_sqlite(chk: Check, s1, s2, label="short-history", earlier=()):
+    """`earlier`: complete checkpoints written into the folder BEFORE the previous one (the file has a history of its own: free pages, a larger size)"""
     import sqlite3
     from black_it.utils import sqlite3_checkpointing as sq
+
+    def prepare(folder, have_prev):
+        if have_prev:
+            for st in earlier:
+                sq.save_calibrator_state(folder, *sqlite_args(st))
+            sq.save_calibrator_state(folder, *sqlite_args(s1))
 
     def load(folder):
         try:
@@ -394,9 +401,10 @@ def run_sqlite(chk: Check, s1, s2, label="short-history"):
             return "error:" + type(e).__name__
 
     for have_prev in (True, False):
+        if earlier and not have_prev:
+            continue
         ref = tempfile.mkdtemp(prefix="vpc06q")
-        if have_prev:
-            sq.save_calibrator_state(ref, *sqlite_args(s1))
+        prepare(ref, have_prev)
         LP = load(ref)
         sq.save_calibrator_state(ref, *sqlite_args(s2)); LN = load(ref)
         shutil.rmtree(ref, ignore_errors=True)
@@ -404,6 +412,7 @@ def run_sqlite(chk: Check, s1, s2, label="short-history"):
         plan = {"n": 0, "at": -1, "log": []}
         real_connect = sqlite3.connect
         d = tempfile.mkdtemp(prefix="vpc06q")
+        prepare(d, have_prev)
         sq.sqlite3.connect = lambda *a, **k: _FailingConn(real_connect(*a, **k), plan)
         try:
             sq.save_calibrator_state(d, *sqlite_args(s2))
@@ -425,8 +434,7 @@ def run_sqlite(chk: Check, s1, s2, label="short-history"):
         for k, exc in [(k, e) for k in range(nstm) for e in (RuntimeError, _Interrupt)]:
             d = tempfile.mkdtemp(prefix="vpc06q")
             try:
-                if have_prev:
-                    sq.save_calibrator_state(d, *sqlite_args(s1))
+                prepare(d, have_prev)
                 plan = {"n": 0, "at": k, "log": [], "exc": exc}
                 sq.sqlite3.connect = lambda *a, **kw: _FailingConn(real_connect(*a, **kw), plan)
                 raised = None
@@ -593,6 +601,8 @@ def run(chk: Check):
     # the same with a long history: a previous checkpoint of several megabytes of incompressible series (larger than SQLite's page cache),
     # so that a transaction that is rolled back has really touched the file
     run_sqlite(chk, big_state(s1, 1500, 11), big_state(s2, 1700, 12), label="long-history")
+    # the previous checkpoint is a short one written over a much larger one (a long calibration, then a fresh short one in the same file): megabytes of free pages
+    run_sqlite(chk, s1, s2, label="short-history-after-a-much-larger-checkpoint", earlier=[big_state(s1, 2800, 31)])
     # ... and the process dying (not an exception) during the SQLite save, at the system calls on the database and its journal
     run_sqlite_kills(chk, s1, s2, "short-history", max_kills=40 if chk.tier == "quick" else 400)
     run_sqlite_kills(chk, big_state(s1, 300, 21), big_state(s2, 340, 22), "long-history", max_kills=40 if chk.tier == "quick" else 600)
